@@ -85,13 +85,18 @@ func Storable(c *ColDesc, d SV) bool {
 }
 
 // serialized: what the column's Valuer sends for the filter value: kind "null" | "num" (quarter units) | "text".
+// A non-nil pointer stands for the value it points to (internal/fields/sql.go dereferences it first for a
+// column that is not a pointer; a pointer column is never implicitnull, so one rule covers both).
 func serialized(c *ColDesc, v GV) (kind string, q int64, s string) {
+	if v.T == "ptr" {
+		v = *v.Elem
+		if v.T == "ptr" {
+			return "null", 0, ""
+		}
+	}
 	switch v.T {
 	case "nil", "nilptr", "nilbytes":
 		return "null", 0, ""
-	case "ptr":
-		k, q, s := serializedScalar(*v.Elem)
-		return k, q, s
 	case "Shifted", "Loud":
 		return serializedScalar(v)
 	}
